@@ -86,6 +86,9 @@ func build(spec interface{}, self r.Element) r.Element {
 		return value.NewNumber(bitsNum(m["bits"].(string)))
 	case "str":
 		return value.NewString(hlib.StrOfCps(m["v"]))
+	case "strbytes":
+		// a text value with arbitrary (possibly ill-formed UTF-8) bytes, e.g. read from a file
+		return value.NewString(string(hlib.Unhex(m["hex"].(string))))
 	case "list":
 		items := []r.Element{}
 		for _, it := range m["v"].([]interface{}) {
